@@ -32,6 +32,27 @@ glibc/libstdc++.
 namespace Cppcms.C11
 open Cppcms
 
+/-! ## `json::object = std::map<string_key,value>`: order and equivalence of keys as the code compares them -/
+
+/-- `string_key::operator<`, as translated from `cppcms/string_key.h` (`Gen.keyLess`) -/
+def mapLt (a b : Bytes) : Bool := Gen.keyLess (a.map UInt8.toNat) (b.map UInt8.toNat)
+
+/-- the equivalence `std::map` derives from its comparator: neither key is less than the other -/
+def mapEquiv (a b : Bytes) : Bool := !mapLt a b && !mapLt b a
+
+/-- `obj.find(k) != obj.end()` -/
+def mapHasKey {N} (k : Bytes) : List (Bytes × Value N) → Bool
+  | [] => false
+  | (k', _) :: rest => mapEquiv k k' || mapHasKey k rest
+
+/-- the entry for `k` set to `v` (`obj[k] = v`; `insert` when the key is absent) -/
+def mapInsert {N} (k : Bytes) (v : Value N) : List (Bytes × Value N) → List (Bytes × Value N)
+  | [] => [(k, v)]
+  | (k', v') :: rest =>
+    if mapEquiv k k' then (k', v) :: rest
+    else if mapLt k k' then (k, v) :: (k', v') :: rest
+    else (k', v') :: mapInsert k v rest
+
 /-! ## UTF-8 validation (`utf8::validate`, modelled as the RFC 3629 table) -/
 
 def isTail (b : UInt8) : Bool := 0x80 ≤ b.toNat && b.toNat ≤ 0xBF
@@ -309,7 +330,7 @@ def Cont.close {N} : Cont N → Value N
 def Cont.plug {N} (v : Value N) (k : Bytes) : Cont N → Cont N
   | .undef => .undef
   | .arr r => .arr (v :: r)
-  | .obj ms => .obj (insertKV k v ms)
+  | .obj ms => .obj (mapInsert k v ms)
 
 def Tok.scalar? {N} : Tok N → Option (Value N)
   | .str s => some (.str s)
@@ -367,7 +388,7 @@ def step {N} (c : Cfg N) (t : Tok N) : Cfg N :=
     | f :: _ =>
       match f.cont with
       | .obj ms =>
-        if hasKey c.key ms then c.fail
+        if mapHasKey c.key ms then c.fail
         else
           match t with
           | .punct 91 => c.push ⟨.objCloseComma, c.key, .arr []⟩ .arrValue
